@@ -347,6 +347,10 @@ fn run_case_c0809(cx: &Ctx, key: &str, ec: &EvCase, mode: Mode) -> CaseOut {
                     for (i, e) in ec.specs.iter().enumerate() {
                         if let (None, EvKind::T(c) | EvKind::NegT(c)) = (e.terminal, &e.kind) {
                             let c = *c;
+                            // roots closer together than the root-finder's resolution have no defined order
+                            if (c - ts).abs() <= 1e-9 {
+                                continue;
+                            }
                             let want = before(c, ts, dir);
                             let got = s.t_events.get(i).map(|l| l.iter().any(|t| (t - c).abs() <= 1e-9)).unwrap_or(false);
                             if want != got {
@@ -513,13 +517,18 @@ pub fn run_check(mode: Mode, replay: Option<Value>) -> i32 {
                     if mode == Mode::C10 && ti == 1 && !thorough {
                         continue;
                     }
-                  for (fi, fs) in [None, Some(0.3)].iter().enumerate() {
-                    if mode == Mode::C10 && fi == 1 && ti == 1 {
+                  // first_step: automatic; 0.3 of the span; 2e-13 in absolute terms (an accepted step
+                  // shorter than every absolute time-matching constant, with roots placed inside it)
+                  for (fi, fs) in [None, Some(0.3), Some(-2e-13)].iter().enumerate() {
+                    if mode == Mode::C10 && fi >= 1 && ti == 1 {
+                        continue;
+                    }
+                    if fi == 2 && (*m == Method::RK4 || ti != 0) {
                         continue;
                     }
                     let mut cfg = scene_cfg(*m, &sc, *tol);
                     if let Some(f) = fs {
-                        cfg.first_step = Some(f * (sc.xend - sc.x0));
+                        cfg.first_step = Some(if *f < 0.0 { -f * (sc.xend - sc.x0).signum() } else { f * (sc.xend - sc.x0) });
                     }
                     let plain = match plain_run(&sc.prob, &cfg) {
                         Some(p) => p,
